@@ -17,7 +17,7 @@ RULE = ('case = sequence of 8-40 operations (get, get_or_compute, forced, raisin
         'every computed value unique. non-trivial = sequence containing a hit after a store AND (a damage op followed by an access, or a '
         'sub-cache/other-key access between store and hit); distinct = hash(op sequence)')
 REQUIRED = ['ops', 'hits', 'computes', 'forced_replacements', 'get_absent', 'get_present', 'raising_computers', 'damage_then_access',
-            'truncations_recovered', 'swaps_reported', 'subcache_ops', 'roundtrips_checked', 'wrong_shape_json_recovered', 'held_values_rechecked', 'forced_with_equal_value_of_other_json_type', 'returned_values_mutated_by_caller', 'refused_none_results']
+            'truncations_recovered', 'swaps_reported', 'subcache_ops', 'roundtrips_checked', 'wrong_shape_json_recovered', 'held_values_rechecked', 'forced_with_equal_value_of_other_json_type', 'returned_values_mutated_by_caller', 'refused_none_results', 'ops_in_non_utf8_locale', 'hits_in_non_utf8_locale']
 ASSUMPTIONS = ['a damaged file that still loads to exactly the stored value counts as intact',
                'swap (foreign-key file) is only applied to JsonCache, the only cache type that records the key',
                'which exception type reports a foreign-key file is not checked; InMemoryCache is used from one thread']
@@ -86,6 +86,11 @@ def make_cache(kind, root):
 
 def gen_ops(rng, kind):
     keys = rng.sample(KEYS, rng.randint(1, 4))
+    if rng.random() < 0.3:
+        # a key that is itself the hex digest of another key in use (and its prefix/remainder): keys are opaque strings, never file names
+        import hashlib
+        dg = hashlib.sha256(keys[0].encode()).hexdigest()
+        keys += rng.sample([dg, dg[5:], dg[:5], dg.upper(), dg + '.json'], 2)
     subs = [(), ('s',), ('s', 't'), ('u',), ('2c624',)]
     rng.shuffle(subs)
     subs = subs[:rng.randint(1, 3)]
@@ -390,7 +395,55 @@ def short(v, n=120):
     return r if len(r) < n else r[:n] + '…'
 
 
+LOCALE_ENV = {'LC_ALL': 'C', 'LANG': 'C', 'PYTHONUTF8': '0', 'PYTHONCOERCECLOCALE': '0'}
+
+
+def run_case_in_locale(case) -> CaseResult:
+    """the same sequences, executed by a freshly started interpreter whose locale encoding is not UTF-8 (keys and values are unicode)"""
+    import os
+    import pickle
+    import subprocess
+    import sys
+    fd, inp = tempfile.mkstemp(prefix='c14-loc-', suffix='.json')
+    os.close(fd)
+    outp = inp + '.out'
+    res = CaseResult()
+    try:
+        import json
+        Path(inp).write_text(json.dumps(dict(case, locale=None)))
+        env = dict(os.environ, **LOCALE_ENV)
+        env['PYTHONPATH'] = str(Path(__file__).resolve().parents[2]) + (os.pathsep + env['PYTHONPATH'] if env.get('PYTHONPATH') else '')
+        try:
+            r = subprocess.run([sys.executable, '-m', 'tc_verif.props.c14', inp, outp], env=env, capture_output=True, text=True, timeout=600)
+        except subprocess.TimeoutExpired:
+            res.inconclusive.append('interpreter with the C locale did not finish its sequences within 600s')
+            return res
+        if not os.path.exists(outp):
+            res.inconclusive.append(f'interpreter with the C locale produced no result (exit {r.returncode}): {r.stderr[-300:]}')
+            return res
+        got = pickle.loads(Path(outp).read_bytes())
+        enc = got.extra.pop('preferred_encoding', None)
+        if not enc or enc.lower().replace('-', '') in ('utf8',):
+            res.inconclusive.append(f'child interpreter reports locale encoding {enc!r}: the non-UTF-8 locale could not be established')
+            return res
+        n_ops = got.counters.get('ops', 0)
+        got.counters = type(got.counters)({'ops_in_non_utf8_locale': n_ops, 'hits_in_non_utf8_locale': got.counters.get('hits', 0),
+                                          'roundtrips_in_non_utf8_locale': got.counters.get('roundtrips_checked', 0)})
+        for v in got.violations:
+            v['what'] = f'[locale encoding {enc}] ' + v['what']
+            if isinstance(v.get('witness'), dict):
+                v['witness']['env'] = LOCALE_ENV
+        got.nontrivial = set()
+        return got
+    finally:
+        for p_ in (inp, outp):
+            if os.path.exists(p_):
+                os.unlink(p_)
+
+
 def run_case(case) -> CaseResult:
+    if case.get('locale'):
+        return run_case_in_locale(case)
     res = CaseResult()
     rng = random.Random(case['seed'])
     for i in range(case['n']):
@@ -409,3 +462,18 @@ def cases(tier, seed):
     n = 100 if tier == 'quick' else 4000
     for i in range(n):
         yield {'n': 25, 'seed': rng.randrange(1 << 30)}
+        if i % 12 == 5:
+            yield {'n': 15, 'seed': rng.randrange(1 << 30), 'locale': 'C'}
+
+
+if __name__ == '__main__':
+    import json as _json
+    import locale as _locale
+    import pickle as _pickle
+    import sys as _sys
+    from ..core import setup_worker_process
+    setup_worker_process()
+    _case = _json.loads(Path(_sys.argv[1]).read_text())
+    _res = run_case(_case)
+    _res.extra['preferred_encoding'] = _locale.getpreferredencoding(False)
+    Path(_sys.argv[2]).write_bytes(_pickle.dumps(_res))
